@@ -1,6 +1,7 @@
 import Pamqp.Spec.Defs
 import Pamqp.Props.C12
 import Pamqp.Generated.Catalogue
+import Pamqp.Proofs.NoCorruption
 /-!
 # C10 — encoders never emit bytes that decode to a different value
 Quantified over ALL Python values the model can tell apart (right or wrong type, any magnitude):
@@ -32,18 +33,24 @@ them consumes all of them and yields the documented normalisation of the input. 
 theorem C10_value (legacy : Bool) (v : PyVal) (bs : Bytes)
     (h : Encode.tableValue legacy v = .ok bs) (hd : ¬ Documented v) (hk : KeysDistinct v) :
     Decode.embeddedValue bs = .ok (bs.length, Spec.norm v) := by
-  sorry
+  exact Proofs.NoCorruption.value_of_ok (Proofs.NoCorruption.DocClauses.mk (D := Documented) (DL := DocumentedL) (DE := DocumentedE)
+    (fun _ _ h => by simpa [Documented] using h) (fun _ h => by simpa [Documented] using h)
+    (fun _ h => by simpa [Documented] using h) (fun _ h => by simpa [Documented] using h)
+    (fun _ _ h => by simpa [DocumentedL] using h) (fun _ _ _ h => by simpa [DocumentedE] using h)) legacy v bs h hd hk
 
 /-- the encoder accepts nothing outside C03's domain (apart from the documented exceptions) -/
 theorem C10_accepts_only_encodable (legacy : Bool) (v : PyVal) (bs : Bytes)
     (h : Encode.tableValue legacy v = .ok bs) (hd : ¬ Documented v) (hk : KeysDistinct v) :
     Spec.Encodable legacy v := by
-  sorry
+  exact Proofs.NoCorruption.encodable_of_ok (Proofs.NoCorruption.DocClauses.mk (D := Documented) (DL := DocumentedL) (DE := DocumentedE)
+    (fun _ _ h => by simpa [Documented] using h) (fun _ h => by simpa [Documented] using h)
+    (fun _ h => by simpa [Documented] using h) (fun _ h => by simpa [Documented] using h)
+    (fun _ _ h => by simpa [DocumentedL] using h) (fun _ _ _ h => by simpa [DocumentedE] using h)) legacy v bs h hd hk
 
 /-- `encode.field_table` only treats `None` as the empty table (D9) -/
 theorem C10_field_table_domain (legacy : Bool) (v : PyVal) (bs : Bytes)
     (h : Encode.fieldTable legacy v = .ok bs) : v = .none ∨ ∃ kvs, v = .dict kvs := by
-  sorry
+  exact Proofs.NoCorruption.fieldTable_domain legacy v bs h
 
 /-- Python `==` between what was passed for an argument and what comes back: `True == 1`, so a
 bool given for an integer argument comes back as that int, and 0/1 given for a bit as a bool -/
@@ -67,7 +74,10 @@ theorem C10_args (cat : Cat) (hwf : Spec.catWF cat = true) (spec : MethodSpec) (
     ∃ c : Nat, ch.asInt? = some (c : Int) ∧
       Frame.unmarshal cat bs = .ok (bs.length, c, .method spec
         ((spec.types.zip vals).map (fun p => Spec.normArg p.1 (coerceArg p.1 p.2)))) := by
-  sorry
+  exact Proofs.NoCorruption.args_of_ok (Proofs.NoCorruption.DocClauses.mk (D := Documented) (DL := DocumentedL) (DE := DocumentedE)
+    (fun _ _ h => by simpa [Documented] using h) (fun _ h => by simpa [Documented] using h)
+    (fun _ h => by simpa [Documented] using h) (fun _ h => by simpa [Documented] using h)
+    (fun _ _ h => by simpa [DocumentedL] using h) (fun _ _ _ h => by simpa [DocumentedE] using h)) cat hwf spec hs legacy vals hl ch bs h hd
 
 /-- the two D-class witnesses of the pinned tree are now refused or exact -/
 example : Encode.bit (.int 2) 0 1 = .error .typeError := rfl
